@@ -8,12 +8,12 @@ export GOFLAGS=-mod=mod GOPROXY=off GOSUMDB=off GOTOOLCHAIN=local; unset GOWORK
 rsync -a --exclude .git --exclude fc/fc /repo/ $S/repo/
 cp /verif/known_findings.txt $S/verif/
 echo "== demo on unmodified copy"
-(cd $DEMO && sh ./run.sh $S/repo) > $S/demo_clean.log 2>&1; RC_CLEAN=$?
+(cd $DEMO && bash ./run.sh $S/repo) > $S/demo_clean.log 2>&1; RC_CLEAN=$?
 (cd $S/repo && git init -q 2>/dev/null; patch -p1 -s < $PATCH) || { echo "PATCH DOES NOT APPLY"; rm -rf $S; exit 2; }
 echo "== baseline tests with the change"
 /verif/scripts/baseline.sh $S/repo > $S/base.log 2>&1; RC_BASE=$?
 echo "== demo with the change"
-(cd $DEMO && sh ./run.sh $S/repo) > $S/demo_mut.log 2>&1; RC_MUT=$?
+(cd $DEMO && bash ./run.sh $S/repo) > $S/demo_mut.log 2>&1; RC_MUT=$?
 echo "== check"
 /verif/bin/fvcheck -p $PROP -repo $S/repo -verif $S/verif > $S/check.log 2>&1; RC_CHECK=$?
 grep -E "^(FAIL|VIOLATION|OK)" $S/check.log | sed "s#$S/##g" | cut -c1-300
